@@ -776,6 +776,19 @@ pub fn run_case(prop: &str, case: &Case, ctx: &mut CaseCtx) -> Result<(), Violat
             }
         };
         let is_upgrade = matches!(op, Op::Side { what, .. } if *what % 5 == 4);
+        // C13: the minter's address spelled in upper case is not the registered minter's address (the chain hands
+        // contracts the one normalised spelling of every sender): the same minter-only call from it is refused
+        if prop == "C13" && matches!(step.kind, Kind::Mint | Kind::UpdateMinter) && step_no % 3 == 1 {
+            if let Some((m, _)) = &pre.minter {
+                let alias = Addr::unchecked(m.to_uppercase());
+                let info = Direct::info(&alias, &[]);
+                let attempt = msg.clone();
+                ctx.count("minter_call_from_upper_case_spelling");
+                if w.d.tx(|deps, env| cw20_base::contract::execute(deps, env, info, attempt)).is_ok() {
+                    return Err(v(prop, "minter-call-by-other-address", format!("step {step_no}: {:?} sent by {alias}, which is not the registered minter {m}, succeeded", msg)));
+                }
+            }
+        }
         let res = if is_upgrade {
             let from = ["1.1.0", "0.16.0", "0.14.2", "2.0.0"][step.sender % 4];
             L_VERSION.save(&mut w.d.store, &LegacyContractVersion { contract: "crates.io:cw20-base".into(), version: from.into() }).unwrap();
